@@ -142,3 +142,9 @@ def _sha1(unit):
     return j
 
 JOBS += [_sha1(u) for u in ("init", "update", "final")]
+
+JOBS.append({"name": "sha512_final_wipe", "props": ["C09", "C16"], "functions": ["SHA512_Final", "cpu_to_be64_vect"],
+             "harness": "harness/digest_sha512.c", "defs": ["U_final_wipe=1", "XV_BZERO_EVENTS=1"],
+             "verif_src": ["models/strings.c"], "replace_calls": ["SHA512_Pad:pad_stub", "SHA512_Transform:transform_stub"],
+             "unwind": 10, "mem_gb": 2, "timeout": 300, "no_native": True,
+             "assumptions": ["SHA512_Pad replaced by a recording stub (its contract is enforced by sha512_final, thorough tier)"]})
